@@ -22,7 +22,8 @@ RULE = (
     'full Cartesian grid of (shape, amplitude, loc, scale, fraction, x unit, y unit); inside a peak case every '
     'prefix is evaluated on the same 4096 quadrature nodes + 16 symmetric abscissae + 3 half-maximum abscissae; '
     'polynomial cases = degree x coefficient family x unit pair, each on 12 abscissae; composite cases = every '
-    'ordered pair and selected triples of parts x nesting x outer prefix; refusal cases = model x prefix x every '
+    'ordered pair and selected (thorough: all) triples of parts x nesting x outer prefix x which part is un-prefixed, every one renamed with with_prefix to '
+    'every prefix and compared with the directly constructed composite; fwhm() additionally called with dicts that hold other models parameters; refusal cases = model x prefix x every '
     'single-name / single-unit corruption.  A case is non-trivial when the implementation returned at least one '
     'finite non-zero value that was compared with the reference (refusal cases: at least one corruption tried); '
     'distinct = distinct canonical case dictionaries'
@@ -36,18 +37,20 @@ ASSUMPTIONS = [
 ]
 BOUND = {
     'quick': '3 amplitudes x 3 locs x 4 scales (1e-6..1e6) x (G, L, PV x 4 fractions) x 3 x-units x 2 y-units x 5 prefixes; '
-    'polynomial degree 1..6 x 6 coefficient families; 16 pairs + 6 triples of parts; refusal table',
-    'thorough': '5 amplitudes x 6 locs x 13 scales (every decade 1e-6..1e6) x (G, L, PV x 7 fractions), same units/prefixes; '
-    'polynomials additionally on 40 abscissae',
+    'polynomial degree 1..6 x 6 coefficient families; 25 pairs + 3 triples of parts x nesting x outer prefix x 3 part-prefix schemes, each renamed to every prefix; '
+    'fwhm() with foreign parameters in the dict for every prefix; refusal table',
+    'thorough': '6 amplitudes x 10 locs x 25 scales (every half decade 1e-6..1e6) x (G, L, PV x 9 fractions) x 4 x-units x 3 y-units x 12 prefixes; '
+    'polynomials additionally on 40 abscissae; all 25 pairs and all 125 triples of parts x nesting x outer prefix x 3 part-prefix schemes, renamed to 12 prefixes',
 }
 REQUIRED_CLASSES = [
     'integral_ok', 'symmetric_ok', 'half_max_ok', 'prefix_identical', 'unit_ok', 'poly_ok', 'poly_cancelling',
     'composite2_ok', 'composite3_ok', 'refused_names', 'refused_units', 'guess_prefix_ok', 'bounds_prefix_ok',
     'shape_gaussian', 'shape_lorentzian', 'shape_pseudo_voigt', 'fraction_0', 'fraction_1', 'negative_amplitude',
-    'node_rounding_limited',
+    'node_rounding_limited', 'fwhm_ignores_foreign_parameters', 'composite_renamed_ok',
 ]
 
 PREFIXES = ('', 'p_', 'peak_', 'a', 'ü ')
+EXTRA_PREFIXES = ('bkg_', 'scale', 'loc_', 'amplitude', ' ', '1', 'a long prefix with spaces ')  # thorough tier only
 XUNITS = ('angstrom', 'us', 'one')
 YUNITS = ('counts', 'one')
 EPS = ps.EPS
@@ -60,10 +63,10 @@ def _grid(tier):
     if tier == 'quick':
         return (-3.0, 0.5, 1e6), (-1e3, 0.0, 2.5), (1e-6, 1e-3, 1.0, 1e6), (0.0, 0.25, 0.5, 1.0)
     return (
-        (-3.0, -1e-6, 0.5, 1.0, 1e6),
-        (-1e3, -1.0, 0.0, 2.0**-10, 2.5, 1e6),
-        tuple(10.0**k for k in range(-6, 7)),
-        (0.0, 0.1, 0.25, 0.5, 0.75, 0.9, 1.0),
+        (-1e6, -3.0, -1e-6, 0.5, 1.0, 1e6),
+        (-1e6, -1e3, -1.0, -(2.0**-10), 0.0, 2.0**-10, 0.5, 2.5, 1e3, 1e6),
+        tuple(10.0 ** (k / 2) for k in range(-12, 13)),
+        (0.0, 0.01, 0.1, 0.25, 0.5, 0.75, 0.9, 0.99, 1.0),
     )
 
 
@@ -91,23 +94,27 @@ POLY_X = (-1e3, -2.5, -1.0, -(2.0**-10), 0.0, 1e-3, 0.5, 1.0, 1.0 + 2.0**-20, 1.
 def cases(tier):
     amps, locs, scales, fracs = _grid(tier)
     out = []
-    for xu, yu in itertools.product(XUNITS, YUNITS):
+    for xu, yu in itertools.product(XUNITS + (('meV',) if tier == 'thorough' else ()), YUNITS + (('K/s',) if tier == 'thorough' else ())):
         for shape in ps.SHAPES:
             for a, mu, s in itertools.product(amps, locs, scales):
                 for fr in fracs if shape == 'pseudo_voigt' else (None,):
-                    out.append({'kind': 'peak', 'shape': shape, 'amplitude': a, 'loc': mu, 'scale': s, 'fraction': fr, 'xunit': xu, 'yunit': yu})
+                    out.append({'kind': 'peak', 'shape': shape, 'amplitude': a, 'loc': mu, 'scale': s, 'fraction': fr, 'xunit': xu, 'yunit': yu, 'deep': tier == 'thorough'})
     for degree in range(1, 7):
         for fam in COEF_FAMILIES:
             for xu, yu in itertools.product(XUNITS, YUNITS):
                 out.append({'kind': 'poly', 'degree': degree, 'family': fam, 'xunit': xu, 'yunit': yu, 'dense': tier == 'thorough'})
     parts = ('poly1', 'poly3', 'gaussian', 'lorentzian', 'pseudo_voigt')
+    schemes = ('all', 'first_bare', 'last_bare')
+    deep = tier == 'thorough'
     for left, right in itertools.product(parts, repeat=2):
-        for outer in ('', 'c_'):
-            out.append({'kind': 'composite', 'parts': [left, right], 'nest': 'flat', 'outer': outer})
-    for trio in (('poly1', 'gaussian', 'lorentzian'), ('poly3', 'pseudo_voigt', 'gaussian'), ('gaussian', 'gaussian', 'gaussian')):
-        for nest in ('left', 'right'):
-            for outer in ('', 'c_'):
-                out.append({'kind': 'composite', 'parts': list(trio), 'nest': nest, 'outer': outer})
+        for outer, scheme in itertools.product(('', 'c_'), schemes):
+            out.append({'kind': 'composite', 'parts': [left, right], 'nest': 'flat', 'outer': outer, 'part_prefixes': scheme, 'deep': deep})
+    trios = [('poly1', 'gaussian', 'lorentzian'), ('poly3', 'pseudo_voigt', 'gaussian'), ('gaussian', 'gaussian', 'gaussian')]
+    if deep:
+        trios = list(itertools.product(parts, repeat=3))
+    for trio in trios:
+        for nest, outer, scheme in itertools.product(('left', 'right'), ('', 'c_'), schemes):
+            out.append({'kind': 'composite', 'parts': list(trio), 'nest': nest, 'outer': outer, 'part_prefixes': scheme, 'deep': deep})
     for name in ('gaussian', 'lorentzian', 'pseudo_voigt', 'poly2', 'composite'):
         for prefix in PREFIXES:
             out.append({'kind': 'refuse', 'model': name, 'prefix': prefix})
@@ -133,6 +140,35 @@ def _peak_params(case, prefix=''):
     if case['shape'] == 'pseudo_voigt':
         p[prefix + 'fraction'] = sc.scalar(case['fraction'])
     return p
+
+
+def _prefixes(case):
+    return PREFIXES + (EXTRA_PREFIXES if case.get('deep') else ())
+
+
+def _plain(case):
+    d = {'amplitude': case['amplitude'], 'loc': case['loc'], 'scale': case['scale']}
+    if case['shape'] == 'pseudo_voigt':
+        d['fraction'] = case['fraction']
+    return d
+
+
+def _foreign_params(case, prefix):
+    """Parameters of *other* models that may share a dict with a model of the given prefix: peak models
+    under every other prefix of the alphabet (the empty one included -> bare 'scale', 'loc', ...) with
+    different values, and a polynomial background."""
+    xu, yu = _unit(case['xunit']), _unit(case['yunit'])
+    out = {}
+    for i, q in enumerate(PREFIXES + ('bkg_',)):
+        if q == prefix:
+            continue
+        out[q + 'amplitude'] = sc.scalar(-(i + 2.0) * case['amplitude'], unit=yu * xu)
+        out[q + 'loc'] = sc.scalar(case['loc'] + (i + 1.0) * case['scale'], unit=xu)
+        out[q + 'scale'] = sc.scalar((i + 3.5) * case['scale'], unit=xu)
+        out[q + 'fraction'] = sc.scalar(0.125 * (i + 1))
+    out['bkg_a0'] = sc.scalar(3.0, unit=yu)
+    out['bkg_a1'] = sc.scalar(-1.0, unit=yu / xu)
+    return out
 
 
 def _snapshot(x, params):
@@ -243,7 +279,7 @@ def run_peak(case, rec):
         rec.viol(site, 'peak_not_at_loc', f'f(loc)={f_mu!r} is not the extremum (max |f| sampled {np.max(np.abs(v))!r})')
     # 4. prefixes -----------------------------------------------------------------------
     identical = True
-    for prefix in PREFIXES[1:]:
+    for prefix in _prefixes(case)[1:]:
         for how in ('ctor', 'with_prefix'):
             mp_ = PEAK_CLASSES[shape](prefix=prefix) if how == 'ctor' else m0.with_prefix(prefix)
             pp = _peak_params(case, prefix)
@@ -264,6 +300,39 @@ def run_peak(case, rec):
         rec.cls('prefix_identical')
     if m0.param_names != set(p0):
         rec.viol(site, 'prefix_dependence', 'with_prefix changed the model it was called on')
+    # 5. fwhm() given a dict that also holds other models' parameters (as fit_peaks does with popt, and as
+    #    the parameter dict of any composite is): the width reported must be this model's own --------------
+    clean = True
+    for prefix in _prefixes(case):
+        mp_ = PEAK_CLASSES[shape](prefix=prefix)
+        own = _peak_params(case, prefix)
+        sup = _foreign_params(case, prefix)
+        if set(sup) & set(own):
+            raise RuntimeError(f'alphabet error: foreign names {set(sup) & set(own)} clash with prefix {prefix!r}')
+        sup.update(own)
+        snap_p = {k: v.copy() for k, v in sup.items()}
+        rec.transitions += 1
+        rec.evals += 1
+        rec.validated += 1
+        try:
+            Fs = mp_.fwhm(sup)
+        except Exception as e:  # noqa: BLE001
+            clean = False
+            rec.viol(site + '.fwhm', 'raises_with_other_models_parameters', f'prefix {prefix!r}: {type(e).__name__}: {e}', prefix=prefix)
+            continue
+        if any(not sc.identical(sup[k], snap_p[k]) for k in snap_p) or sup.keys() != snap_p.keys():
+            rec.viol(site + '.fwhm', 'argument_modified', 'fwhm changed its parameter dict', prefix=prefix)
+        if not sc.identical(Fs, F):
+            clean = False
+            hs = float(Fs.value) / 2.0 if Fs.unit == xu else math.nan
+            ratio = float(ps.peak(shape, mu + hs, _plain(case)) / ps.peak(shape, mu, _plain(case))) if math.isfinite(hs) else math.nan
+            rec.viol(
+                site + '.fwhm', 'foreign_parameters_used',
+                f'prefix {prefix!r}: fwhm(own parameters + parameters of other models) = {Fs.value!r} {Fs.unit}, fwhm(own parameters) = {F.value!r} {F.unit}; '
+                f'f(loc + fwhm/2)/f(loc) = {ratio:.6g}, expected 0.5', prefix=prefix, foreign=sorted(set(sup) - set(own)),
+            )
+    if clean:
+        rec.cls('fwhm_ignores_foreign_parameters')
 
 
 # ---------------------------------------------------------------------------------------
@@ -354,24 +423,32 @@ def _make_part(name, prefix, xu, yu, tweak=0.0):
     return PEAK_CLASSES[name](prefix=prefix), _peak_params(case, prefix)
 
 
+def _compose(models, nest, prefix):
+    if len(models) == 2:
+        return M.CompositeModel(models[0], models[1], prefix=prefix)
+    if nest == 'left':
+        return M.CompositeModel(M.CompositeModel(models[0], models[1]), models[2], prefix=prefix)
+    return M.CompositeModel(models[0], M.CompositeModel(models[1], models[2]), prefix=prefix)
+
+
 def run_composite(case, rec):
     site = 'peaks.model.CompositeModel'
     xu, yu = _unit('angstrom'), _unit('counts')
     x = sc.array(dims=['x'], values=np.linspace(-3.0, 4.0, 57), unit=xu)
     names = case['parts']
-    built = [_make_part(nm, f'm{i}_', xu, yu, tweak=0.125 * i) for i, nm in enumerate(names)]
+    scheme = case.get('part_prefixes', 'all')
+    part_prefix = [('' if (scheme == 'first_bare' and i == 0) or (scheme == 'last_bare' and i == len(names) - 1) else f'm{i}_') for i in range(len(names))]
+    built = [_make_part(nm, part_prefix[i], xu, yu, tweak=0.125 * i) for i, nm in enumerate(names)]
     models = [b[0] for b in built]
     separately = [m(x, **p) for m, p in built]
     rec.transitions += len(built)
     outer = case['outer']
+    comp = _compose(models, case['nest'], outer)
     if len(models) == 2:
-        comp = M.CompositeModel(models[0], models[1], prefix=outer)
         via_add = models[0] + models[1]
     elif case['nest'] == 'left':
-        comp = M.CompositeModel(M.CompositeModel(models[0], models[1]), models[2], prefix=outer)
         via_add = (models[0] + models[1]) + models[2]
     else:
-        comp = M.CompositeModel(models[0], M.CompositeModel(models[1], models[2]), prefix=outer)
         via_add = models[0] + (models[1] + models[2])
     allp = {}
     for _, p in built:
@@ -409,9 +486,102 @@ def run_composite(case, rec):
     rec.evals += 1
     if not np.all(np.abs(y2.values - want) <= tol) or y2.unit != yu:
         rec.viol('peaks.model.Model.__add__', 'not_sum_of_parts', f'parts {names} combined with + do not give the sum of the parts')
+    # every peak part reports its own width when handed the parameter dict of the whole composite -------
+    for (m, p), nm in zip(built, names, strict=True):
+        if nm.startswith('poly'):
+            continue
+        psite = f'peaks.model.{type(m).__name__}.fwhm'
+        rec.transitions += 2
+        rec.evals += 1
+        rec.validated += 1
+        try:
+            f_own, f_all = m.fwhm(p), m.fwhm(allp)
+        except Exception as e:  # noqa: BLE001
+            rec.viol(psite, 'raises_with_other_models_parameters', f'part {nm} (prefix {m.prefix!r}) of {names}: {type(e).__name__}: {e}', prefix=m.prefix)
+            continue
+        if not sc.identical(f_own, f_all):
+            rec.viol(psite, 'foreign_parameters_used', f'part {nm} (prefix {m.prefix!r}) of {names}: fwhm(all parameters of the composite) = {f_all.value!r}, fwhm(own parameters) = {f_own.value!r}', prefix=m.prefix)
+        else:
+            rec.cls('fwhm_ignores_foreign_parameters')
+    # renaming: with_prefix(p) must behave exactly like the composite constructed with prefix p ----------
+    renamed_ok = True
+    data = _guess_data()
+    bounds0 = comp.param_bounds
+    try:
+        guess0 = comp.guess(data)
+    except Exception:  # noqa: BLE001 - guessing is judged in the guess cases; here only names are compared
+        guess0 = None
+    for prefix in _prefixes(case):
+        for src_name, src in (('constructed', comp), ('via_add', via_add)):
+            if src_name == 'via_add' and outer == '':
+                continue  # same object kind as comp
+            rn = src.with_prefix(prefix)
+            want_names = {prefix + k for k in allp}
+            rec.transitions += 2
+            rec.states += 1
+            rec.evals += 1
+            rec.validated += 1
+            sub = {'prefix': prefix, 'renamed_from': src.prefix, 'source': src_name}
+            if rn.param_names != want_names or rn.prefix != prefix:
+                renamed_ok = False
+                rec.viol(site + '.with_prefix', 'param_names', f'with_prefix({prefix!r}) of a composite with prefix {src.prefix!r}: names {sorted(rn.param_names)}, expected {sorted(want_names)}', **sub)
+                continue
+            pp = {prefix + k: v for k, v in allp.items()}
+            try:
+                yr = rn(x, **pp)
+            except Exception as e:  # noqa: BLE001
+                renamed_ok = False
+                rec.viol(site + '.with_prefix', 'renamed_refuses_own_parameters', f'with_prefix({prefix!r}) of a composite with prefix {src.prefix!r} reports names {sorted(rn.param_names)} but called with exactly those: {type(e).__name__}: {e}', **sub)
+                continue
+            if not sc.identical(yr, y, equal_nan=True):
+                renamed_ok = False
+                rec.viol(site + '.with_prefix', 'prefix_dependence', f'with_prefix({prefix!r}) of a composite with prefix {src.prefix!r}: values differ from the composite before renaming', **sub)
+            if set(rn.param_bounds) != {prefix + k[len(outer):] for k in bounds0} or any(rn.param_bounds[prefix + k[len(outer):]] != b for k, b in bounds0.items() if prefix + k[len(outer):] in rn.param_bounds):
+                renamed_ok = False
+                rec.viol(site + '.with_prefix', 'param_bounds', f'with_prefix({prefix!r}): bounds {rn.param_bounds}, before renaming {bounds0}', **sub)
+            if guess0 is not None and src_name == 'constructed':
+                try:
+                    gr = rn.guess(data)
+                except Exception as e:  # noqa: BLE001
+                    renamed_ok = False
+                    rec.viol(site + '.with_prefix', 'guess_raises', f'with_prefix({prefix!r}): guess: {type(e).__name__}: {e}', **sub)
+                else:
+                    if set(gr) != want_names or any(not sc.identical(gr[prefix + k[len(outer):]], g) for k, g in guess0.items() if prefix + k[len(outer):] in gr):
+                        renamed_ok = False
+                        rec.viol(site + '.with_prefix', 'guess', f'with_prefix({prefix!r}): guess keys/values differ from the guess before renaming: {sorted(gr)}', **sub)
+        # the composite built directly with this prefix
+        direct = _compose(models, case['nest'], prefix)
+        yd = direct(x, **{prefix + k: v for k, v in allp.items()})
+        rec.transitions += 1
+        if not sc.identical(yd, y, equal_nan=True):
+            renamed_ok = False
+            rec.viol(site, 'prefix_dependence', f'composite constructed with prefix {prefix!r}: values differ from the one constructed with {outer!r}', prefix=prefix)
+    # renaming must not have touched the original
+    if comp.param_names != set(params) or not sc.identical(comp(x, **params), y, equal_nan=True):
+        renamed_ok = False
+        rec.viol(site + '.with_prefix', 'original_changed', 'with_prefix changed the composite it was called on')
+    # a renamed composite used as a part (nested) and renamed leaf parts
+    if len(models) == 3:
+        inner = (models[0] + models[1]).with_prefix('i_')
+        nested = M.CompositeModel(inner, models[2].with_prefix('z_'), prefix=outer)
+        np_ = {outer + 'i_' + k: v for k, v in {**built[0][1], **built[1][1]}.items()}
+        np_.update({outer + 'z_' + k[len(part_prefix[2]):]: v for k, v in built[2][1].items()})
+        rec.transitions += 1
+        rec.evals += 1
+        try:
+            yn = nested(x, **np_)
+        except Exception as e:  # noqa: BLE001
+            renamed_ok = False
+            rec.viol(site + '.with_prefix', 'renamed_refuses_own_parameters', f'composite of a renamed composite and a renamed leaf, names {sorted(nested.param_names)}: {type(e).__name__}: {e}', source='nested')
+        else:
+            if not np.all(np.abs(yn.values - want) <= tol):
+                renamed_ok = False
+                rec.viol(site + '.with_prefix', 'not_sum_of_parts', 'composite of a renamed composite and a renamed leaf is not the sum of the parts', source='nested')
+    if renamed_ok:
+        rec.cls('composite_renamed_ok')
     # same names on both sides must be refused at construction
     try:
-        M.CompositeModel(models[0], models[0].with_prefix('m0_'))
+        M.CompositeModel(models[0], models[0].with_prefix(part_prefix[0]))
     except ValueError:
         rec.cls('clash_refused')
     else:
